@@ -3,4 +3,4 @@ Require Extraction. Require ExtrOcamlBasic.
 From NV Require Import Base.Bytes C10.Layout C10.Tables C10.Model.
 Extraction Language OCaml.
 Extraction "c10_model.ml" layout_of size_of decode_struct encode_struct swap_struct guessed_endian from_bytes
-  copy_hdr as_byteswapped hdr_eq fields_of check_bytes default_obj from_header native_be new_header copy_ref mutate view.
+  copy_hdr as_byteswapped hdr_eq fields_of check_bytes default_obj from_header native_be new_header copy_ref mutate view signature written n2_cifti.
